@@ -201,7 +201,7 @@ def gen_def(rng, kind):
         d['rect'] = rng.choice([None, [Fraction(-1, 4), Fraction(-1, 4), Fraction(3, 2), Fraction(3, 2)],
                                 [Fraction(0), Fraction(0), Fraction(1), Fraction(1)]])
         d['prim'] = rng.choice(['blur', 'blur1', 'offset', 'flood', 'offset-sub', 'shadow', 'shadow1', 'morph', 'morph1', 'displace',
-                                'morphz', 'morphzz'])   # zero / one-zero radii: resolved before the fallbacks since 4d36085
+                                'morphz', 'morphzz', 'morphn', 'morpha'])   # zero / one-zero radii (4d36085), negative / absent radius (e3b9753)
         d['p'] = [rng.choice([Fraction(1, 16), Fraction(1, 8), Fraction(1, 32)]), rng.choice([Fraction(1, 16), Fraction(1, 8)])]
         d['sub'] = [Fraction(1, 8), Fraction(1, 4), Fraction(1, 2), Fraction(1, 2)]
         d['fhref'] = rng.choice([None, None, 'own', 'own-only', 'inherit'])
@@ -359,6 +359,10 @@ def filter_prims(d, B):
         return '<feMorphology operator="dilate" radius="0 %s"/>' % fs(sy)
     if k == 'morphzz':
         return '<feMorphology operator="dilate" radius="0 0"/>'
+    if k == 'morphn':       # a negative component: the fallback radius is 1 user unit in both documents
+        return '<feMorphology operator="dilate" radius="%s %s"/>' % (fs(-sx), fs(sy))
+    if k == 'morpha':       # no radius: 1 user unit in both documents
+        return '<feMorphology operator="dilate"/>'
     if k == 'displace':
         sc = sx if (B is None or not pu_obb) else p0 * (B[2] + B[3]) / 2
         return '<feDisplacementMap in="SourceGraphic" in2="SourceGraphic" scale="%s" xChannelSelector="B" yChannelSelector="A"/>' % fs(sc)
@@ -1069,17 +1073,22 @@ def run(ctx):
     if live:
         ctx.add_sample(dict(op='s-obb', docA=live[0]['docA'][:400]))
 
-    # must-pass regression input (former witness of C18_primitive_params_morph_zero_witness, repaired by 4d36085): the objectBoundingBox
-    # document and the same filter with primitiveUnits=userSpaceOnUse and the radius mapped through the 50x20 box give the same tree
-    try:
-        wa = open(os.path.join(os.path.dirname(os.path.dirname(os.path.dirname(os.path.abspath(__file__)))), 'corpus', 'witness',
-                               'C18-morphology-zero-radius-obb.svg')).read().strip().replace('\n', ' ')
-    except OSError:
-        wa = None
-    if wa is None or 'primitiveUnits="objectBoundingBox"' not in wa or 'radius="0 3"' not in wa:
-        ctx.violation("regression input corpus/witness/C18-morphology-zero-radius-obb.svg is missing or was changed", dict(kind='s-witness'), found_input=False)
-    else:
-        wb = wa.replace('primitiveUnits="objectBoundingBox"', 'primitiveUnits="userSpaceOnUse"').replace('radius="0 3"', 'radius="0 60"')
+    # must-pass regression inputs (former witnesses of the feMorphology defects repaired by 4d36085 and e3b9753): the objectBoundingBox
+    # document and the same filters with primitiveUnits=userSpaceOnUse and the radius mapped through the 50x20 box give the same tree
+    wdir = os.path.join(os.path.dirname(os.path.dirname(os.path.dirname(os.path.abspath(__file__)))), 'corpus', 'witness')
+    ctx.cov['oracle']['witnesses'] = {}
+    for wname, subst in (('C18-morphology-zero-radius-obb.svg', [('radius="0 3"', 'radius="0 60"')]),
+                         ('C18-morphology-default-radius-obb.svg', [('radius="-1 3"', 'radius="-50 60"')])):
+        try:
+            wa = open(os.path.join(wdir, wname)).read().strip().replace('\n', ' ')
+        except OSError:
+            wa = None
+        if wa is None or 'primitiveUnits="objectBoundingBox"' not in wa or any(x not in wa for x, _ in subst):
+            ctx.violation("regression input corpus/witness/%s is missing or was changed" % wname, dict(kind='s-witness'), found_input=False)
+            continue
+        wb = wa.replace('primitiveUnits="objectBoundingBox"', 'primitiveUnits="userSpaceOnUse"')
+        for x, y in subst:
+            wb = wb.replace(x, y)
         wo = [jload(o) for o in ctx.rvh_batch(binp, 'dump', ["-\t" + wa, "-\t" + wb])]
 
         def wnum(t):
@@ -1094,11 +1103,11 @@ def run(ctx):
                 rec(t['root'])
             return fl
         na_, nb_ = wnum(wo[0]), wnum(wo[1])
-        ctx.note_case('s/witness-morph-zero', nontrivial=bool(na_))
+        ctx.note_case('s/witness-' + wname, nontrivial=bool(na_))
         if not na_ or len(na_) != len(nb_) or any(not lists_close(x, y) for x, y in zip(na_, nb_)):
-            ctx.violation("feMorphology zero radius under primitiveUnits=objectBoundingBox differs from the mapped user-space primitive "
-                          "(regression of 4d36085): %s vs %s" % (str(na_)[:200], str(nb_)[:200]), dict(kind='s-obb', docA=wa, docB=wb))
-        ctx.cov['oracle']['witness_morph_zero'] = dict(obb=str(na_)[:120], mapped=str(nb_)[:120])
+            ctx.violation("feMorphology radius under primitiveUnits=objectBoundingBox differs from the mapped user-space primitive "
+                          "(regression input %s): %s vs %s" % (wname, str(na_)[:200], str(nb_)[:200]), dict(kind='s-obb', docA=wa, docB=wb))
+        ctx.cov['oracle']['witnesses'][wname] = dict(obb=str(na_)[:160], mapped=str(nb_)[:160])
 
     # ---------------------------------------------------------------- K: dumped definitions vs the model (inside Coq)
     g_items, gt_items, p_items, cu_items, ce_items, r_items, fb_items, pr_items = [], [], [], [], [], [], [], []
